@@ -6,7 +6,7 @@ HERE = os.path.dirname(os.path.dirname(os.path.abspath(__file__)))
 os.chdir(HERE)
 checks = [c["property_id"] for c in json.load(open("MANIFEST.json"))["checks"]]
 ids = sys.argv[1:] or sorted(os.listdir("seeded"))
-ids = [i for i in ids if os.path.exists("seeded/%s/patch.diff" % i)]
+ids = [i for i in ids if i != "not-kept" and os.path.exists("seeded/%s/patch.diff" % i)]
 out_path = "seeded/matrix.json"
 matrix = json.load(open(out_path)) if os.path.exists(out_path) else {}
 for mid in ids:
